@@ -436,7 +436,13 @@ func (p *prep) evalChannel(cut int, t tally) (f *vh.Failure) {
 			return vh.Failf(class(p.kind, "channel-delivery"), "%s, channel: the preceding complete response [DONE(COUNT)] delivered %d packages, err %v", p.describe(cut), len(got), err)
 		}
 	}
-	ch.WritePacket(packet(p.stream[:p.start+cut], 0))
+	// the prefix packet may carry other status bits than EOM (ATTNACK 0x02, EVENT 0x08): what
+	// was received of the incomplete package has to be kept all the same
+	prefixStatus := tds.PacketHeaderStatus([]byte{0, 0, 0x02, 0, 0x08, 0x0a}[cut%6])
+	if prefixStatus != 0 {
+		t["channel:prefix-packet-with-other-status-bits"]++
+	}
+	ch.WritePacket(packet(p.stream[:p.start+cut], prefixStatus))
 	if f := noError("after the prefix packet"); f != nil {
 		return f
 	}
@@ -446,6 +452,17 @@ func (p *prep) evalChannel(cut int, t tally) (f *vh.Failure) {
 	}
 	if f := expect("after the prefix packet", got, before, false); f != nil {
 		return f
+	}
+	if cut%5 == 3 {
+		// an empty packet (header only, no EOM) between the two halves of the package
+		ch.WritePacket(packet(nil, 0))
+		if f := noError("after an empty packet"); f != nil {
+			return f
+		}
+		if got, err := drain(ctx, ch); err != nil || len(got) != 0 {
+			return vh.Failf(class(p.kind, "channel-delivery"), "%s, channel: an empty packet after the prefix packet delivered %d packages (%v), err %v", p.describe(cut), len(got), clip(got), err)
+		}
+		t["channel:empty-packet-inside-the-package"]++
 	}
 	if cut%3 == 2 {
 		// the prefix packet was the answer of a fast server: the client's call that sent the
